@@ -438,7 +438,7 @@ func (self Value) MarshalTo(to *thrift.TypeDescriptor, opts *Options) ([]byte, e
 	if from.Type() != to.Type() {
 		return nil, wrapError(meta.ErrDismatchType, "to descriptor dismatches from descriptor", nil)
 	}
-	if err := marshalTo(&r, w, from, to, opts); err != nil {
+	if err := marshalTo(&r, w, from, to, opts, _SkipMaxDepth); err != nil {
 		return nil, err
 	}
 	ret := make([]byte, len(w.Buf))
@@ -447,7 +447,11 @@ func (self Value) MarshalTo(to *thrift.TypeDescriptor, opts *Options) ([]byte, e
 	return ret, nil
 }
 
-func marshalTo(read *thrift.BinaryProtocol, write *thrift.BinaryProtocol, from *thrift.TypeDescriptor, to *thrift.TypeDescriptor, opts *Options) error {
+func marshalTo(read *thrift.BinaryProtocol, write *thrift.BinaryProtocol, from *thrift.TypeDescriptor, to *thrift.TypeDescriptor, opts *Options, maxDepth int) error {
+	if maxDepth <= 0 && to.Type().IsComplex() {
+		// same limit as for skipping a value
+		return wrapError(meta.ErrStackOverflow, "", nil)
+	}
 	switch t := to.Type(); t {
 	case thrift.STRUCT:
 		if from == to {
@@ -519,7 +523,7 @@ func marshalTo(read *thrift.BinaryProtocol, write *thrift.BinaryProtocol, from *
 				req.Set(tf.ID(), thrift.OptionalRequireness)
 			}
 
-			if err := marshalTo(read, write, ff.Type(), tf.Type(), opts); err != nil {
+			if err := marshalTo(read, write, ff.Type(), tf.Type(), opts, maxDepth-1); err != nil {
 				return err
 			}
 		}
@@ -548,7 +552,7 @@ func marshalTo(read *thrift.BinaryProtocol, write *thrift.BinaryProtocol, from *
 			return nil
 		}
 		for i := 0; i < size; i++ {
-			if err := marshalTo(read, write, from.Elem(), to.Elem(), opts); err != nil {
+			if err := marshalTo(read, write, from.Elem(), to.Elem(), opts, maxDepth-1); err != nil {
 				return err
 			}
 		}
@@ -577,10 +581,10 @@ func marshalTo(read *thrift.BinaryProtocol, write *thrift.BinaryProtocol, from *
 			return nil
 		}
 		for i := 0; i < size; i++ {
-			if err := marshalTo(read, write, from.Key(), to.Key(), opts); err != nil {
+			if err := marshalTo(read, write, from.Key(), to.Key(), opts, maxDepth-1); err != nil {
 				return err
 			}
-			if err := marshalTo(read, write, from.Elem(), to.Elem(), opts); err != nil {
+			if err := marshalTo(read, write, from.Elem(), to.Elem(), opts, maxDepth-1); err != nil {
 				return err
 			}
 		}
